@@ -17,11 +17,11 @@ Schemes == {"http://", ""}
 \* Malformed: refused ("lenient" in the export tells the replayer that the only other thing it must never see is a panic).
 Hostile == {"[", "[::1", "::1]", "[]", "]", "[[::1]]", "[x"}
 Hosts   == {"example.com", "10.1.2.3", "[::1]", "[2001:db8::1]", "a-b.c_d.example", ""} \cup Hostile
-Ports   == {"", ":8080", ":80", ":0", ":65535", ":65536", ":abc", ":"}
+Ports   == {"", ":8080", ":80", ":080", ":+80", ":0", ":65535", ":65536", ":abc", ":"}
 Paths   == {"", "/", "/a/b", "/a:b/c", "/x://y", "/p/"}
 Queries == {"", "?a=b", "?u=http://o:9/p", "?a=b:c", "?q=1/2?3"}
 
-PortValue(p) == CASE p = "" -> 80 [] p = ":8080" -> 8080 [] p = ":80" -> 80 [] p = ":0" -> 0 [] p = ":65535" -> 65535 [] OTHER -> -1
+PortValue(p) == CASE p = "" -> 80 [] p = ":8080" -> 8080 [] p = ":80" -> 80 [] p = ":080" -> 80 [] p = ":+80" -> 80 [] p = ":0" -> 0 [] p = ":65535" -> 65535 [] OTHER -> -1
 
 Targets == [method : Methods, scheme : Schemes, host : Hosts, port : Ports, path : Paths, query : Queries]
 
@@ -35,7 +35,7 @@ Sensible(t) == /\ (t.method = "CONNECT" => (t.scheme = "" /\ t.path = "" /\ t.qu
 
 Uri(t) == t.scheme \o t.host \o t.port \o t.path \o t.query
 
-Expected(t) ==
+Expected0(t) ==
   IF t.host \in Hostile /\ (t.method = "CONNECT" \/ t.scheme # "")
     THEN [ok |-> FALSE, host |-> t.host, port |-> 0, kind |-> "lenient"]
   ELSE IF t.method = "CONNECT"
@@ -43,6 +43,11 @@ Expected(t) ==
          ELSE [ok |-> TRUE, host |-> t.host, port |-> PortValue(t.port), kind |-> "https"]
     ELSE IF t.scheme = "" \/ PortValue(t.port) < 0 THEN [ok |-> FALSE, host |-> "", port |-> 0, kind |-> "refuse"]
          ELSE [ok |-> TRUE, host |-> t.host, port |-> PortValue(t.port), kind |-> "http"]
+
+\* ":+80" is not a port of the grammar (port = *DIGIT) but names no other port than 80 either: tunnelling to 80 and
+\* refusing are both within "exactly the requested target"; the kind then ends in "?".  ":080" is 80.
+Signed(t) == t.port = ":+80"
+Expected(t) == LET e == Expected0(t) IN IF e.ok /\ Signed(t) THEN [e EXCEPT !.kind = @ \o "?"] ELSE e
 
 VARIABLES t, verdict
 Init == t \in {x \in Targets : Sensible(x)} /\ verdict = "pending"
